@@ -113,21 +113,29 @@ class Rec(dict):
 
 
 class Closure:
-    __slots__ = ("params", "body", "env", "ev")
+    """python's own binding rules: positional, keyword, defaults (evaluated where the lambda is defined), *args, keyword-only"""
+    __slots__ = ("params", "body", "env", "ev", "defaults", "vararg", "kwonly")
 
-    def __init__(self, params, body, env, ev):
+    def __init__(self, params, body, env, ev, defaults=None, vararg=None, kwonly=()):
         self.params, self.body, self.env, self.ev = params, body, env, ev
+        self.defaults, self.vararg, self.kwonly = defaults or {}, vararg, tuple(kwonly)
 
     def __call__(self, *a, **k):
-        if len(a) > len(self.params):
-            raise EvalError("too many args")
         b = dict(zip(self.params, a))
+        if len(a) > len(self.params):
+            if self.vararg is None:
+                raise EvalError("too many args")
+        if self.vararg is not None:
+            b[self.vararg] = tuple(a[len(self.params):])
         for kk, v in k.items():
-            if kk in b or kk not in self.params:
+            if kk in b or (kk not in self.params and kk not in self.kwonly):
                 raise EvalError("bad kw")
             b[kk] = v
-        if len(b) != len(self.params):
-            raise EvalError("missing args")
+        for p in list(self.params) + list(self.kwonly):
+            if p not in b:
+                if p not in self.defaults:
+                    raise EvalError("missing args")
+                b[p] = self.defaults[p]
         return self.ev.ev(self.body, (b, self.env))
 
 
@@ -216,7 +224,12 @@ class Ev:
         if t is ast.Name:
             return self.lookup(n.id, env)
         if t is ast.Lambda:
-            return Closure([a.arg for a in n.args.args], n.body, env, self)
+            pos = [a.arg for a in n.args.posonlyargs + n.args.args]
+            dflt = {p: self.ev(d, env) for p, d in zip(pos[len(pos) - len(n.args.defaults):], n.args.defaults)} if n.args.defaults else {}
+            for a, d in zip(n.args.kwonlyargs, n.args.kw_defaults):
+                if d is not None:
+                    dflt[a.arg] = self.ev(d, env)
+            return Closure(pos, n.body, env, self, dflt, n.args.vararg.arg if n.args.vararg else None, [a.arg for a in n.args.kwonlyargs])
         if t is ast.Attribute:
             v = self.ev(n.value, env)
             if isinstance(v, dict):
